@@ -130,8 +130,8 @@ fn matrix_v<V: Fv>(ctx: &Ctx, nkeys: usize, rep: &mut Report) {
 }
 
 pub fn matrix(ctx: &Ctx, rep: &mut Report) {
-    matrix_v::<F1024>(ctx, ctx.sz(4, 60), rep);
-    matrix_v::<F512>(ctx, ctx.sz(12, 300), rep);
+    matrix_v::<F1024>(ctx, ctx.sz(4, 200), rep);
+    matrix_v::<F512>(ctx, ctx.sz(12, 1000), rep);
     rep.require("exec_with_norm_reject", 20);
     rep.require("exec_with_3plus_norm_rejects", 5);
     rep.require("exec_with_compress_retry", 20);
@@ -188,8 +188,8 @@ fn native_v<V: Fv>(ctx: &Ctx, nkeys: usize, per_key: usize, rep: &mut Report) {
 pub fn native(ctx: &Ctx, rep: &mut Report) {
     // Falcon-1024 compresses into a tight budget: about one signature in a thousand takes the
     // compression-retry branch naturally, so this leg signs enough to see it
-    native_v::<F1024>(ctx, ctx.sz(4, 24), ctx.sz(4000, 20000), rep);
-    native_v::<F512>(ctx, ctx.sz(4, 24), ctx.sz(1000, 10000), rep);
+    native_v::<F1024>(ctx, ctx.sz(4, 24), ctx.sz(4000, 60000), rep);
+    native_v::<F512>(ctx, ctx.sz(4, 24), ctx.sz(1000, 40000), rep);
     rep.require("native_signatures", 10_000);
     rep.sample(json!({"path": "thread_rng (no override installed)", "natural_compress_retries_observed": rep.get("natural_compress_retry"), "native_norm_rejects": rep.get("native_norm_reject")}));
 }
